@@ -113,7 +113,7 @@ func encodeRefinement(w *World, rt refineTarget) *Enc {
 	// interface-level view of the arguments: self is the boxed receiver
 	self := e.def("self", e.box(rt.recvT, args[0]))
 	e.assume(tTrue, eq(T(SInt, "(tag %s)", self.S), e.typeID(rt.recvT)))
-	e.assume(tTrue, eq(e.unbox(rt.recvT, self), args[0]))
+	e.assume(tTrue, same(e.unbox(rt.recvT, self), args[0]))
 	e.assume(tTrue, not(eq(self, Term{"nil_iface", SIface})))
 	ienv := &CEnv{e: e, vars: map[string]TT{}, cur: st0, old: e.entryState, pkg: rt.iface.Pkg, guard: tTrue}
 	it, _ := w.lookupType(rt.ikey[:strings.LastIndex(rt.ikey, ".")], "")
